@@ -745,7 +745,9 @@ pub fn systems(tier: Tier) -> Vec<SysSpec> {
     let n_hand = hand_systems(8).len() + 1;
     out.extend(unnamed_variants(&out, n_hand, 11));
     let offs = offset_variants(&out, n_hand, 13);
+    let revs = revsyms_variants(&out, n_hand, 11);
     out.extend(offs);
+    out.extend(revs);
     out
 }
 
